@@ -187,6 +187,9 @@ def run(ctx):
     from .c04 import clause_stack_directive
     clause_stack_directive(r, _index10())
 
+    # ------------------------------------------------------------------ R10.10 (generic, scoped to this property's anchors)
+    sm.rule_named_plumbing(ctx, mir, "C10", "R10.10", floor=21)
+
     ctx.not_decided += ["monotonicity in M and equality of outputs across limits (relations between runs)", "that Vec::try_reserve_exact reserves exactly what was charged (allocator behaviour)"]
     return ("Accounting clauses: charge-dominates-grow on the two limited containers with operand identity, error discipline for every "
             "Result carrying MemoryLimitExceededError (23 sites), the comparison shape of the limiter, a type-driven inventory of every growable "
